@@ -541,6 +541,14 @@ func (n *Node) BeaconBlockRoot(ctx context.Context, opts *api.BeaconBlockRootOpt
 	if _, err := n.S.Do(ctx, n.NodeName, "BeaconBlockRoot", opts.Block); err != nil {
 		return nil, err
 	}
+	if cur, _ := n.curSlot(); true {
+		for _, s := range n.M.P.RootFailSlots {
+			if s == cur {
+				simrt.Probe("fault:BeaconBlockRoot-error")
+				return nil, errors.New("GET failed with status 503: syncing")
+			}
+		}
+	}
 	_, root, ok := n.M.Head()
 	if !ok {
 		root = rootOf("genesis-block")
